@@ -51,6 +51,11 @@ CHECKS = {
         text="Every list in the bounded space is split by the real code and by the reference grammar; disagreement in count, tokens, identifier classification, positional indices seen by the derive, alias recognition or verbatim re-emission is a violation. Two root-cause classes are recorded as known findings with predicates decided on the reference parse only.",
         note="Trusted: syn::Expr(full) as the expression grammar, cross-checked against rustc for all alias-free lists of the quick space; the class predicates for the two known findings. Expressions outside the alphabet are not explored.",
         design_ref="DESIGN.md §3 C16", engine="inproc+compile"),
+    "C19": dict(
+        technique="exhaustive enumeration of expansion histories: every sequence of length <= 2 (3 thorough) over a 14-input alphabet (all expanders that iterate hashed collections), each in its own process, last expansion compared byte-for-byte with a fresh-process expansion; M=8 (64) fresh processes per input under varied environment size / thread / pool size; hasher seam observed across processes; thorough: rustc -Zunpretty=expanded on two source orders x two clean builds",
+        text="Explicit-state exploration where the state is the history of expansions already performed in the process; the invariant is byte equality with the empty-history expansion. Process-level repetition covers what a history cannot (hash seeds).",
+        note="Trusted: that the in-process seam returns the same tokens the proc-macro hands to rustc (checked by the thorough tier through -Zunpretty=expanded). Hash seeds cannot be enumerated; a RandomState-style regression is caught with probability 1-2^-M per hashed collection.",
+        design_ref="DESIGN.md §3 C19", engine="inproc"),
 }
 
 PENDING = ["C01", "C02", "C03", "C04", "C05", "C06", "C07", "C08", "C09", "C10", "C11", "C13", "C14", "C15", "C16",
